@@ -109,7 +109,7 @@ Proof. unfold wr. destruct (off + length d <=? length buf)%nat eqn:E; [|discrimi
   rewrite !app_length, firstn_length_le, skipn_length by lia. lia. Qed.
 
 Lemma packet_to_raw_fits smb tr bh hdr data buf out n :
-  packet_to_raw smb tr bh hdr data buf = (out, Val n) -> (n <= length buf)%nat.
+  packet_to_raw smb tr bh hdr data buf = (out, Val n) -> (n <= length buf)%nat /\ n = packet_len hdr data.
 Proof.
   unfold packet_to_raw, wbind.
   destruct (wr 0 smb buf) as [b1 [[]|k1]] eqn:W1; [|discriminate].
@@ -126,17 +126,26 @@ Proof.
   rewrite E4.
   destruct (wr (8 + 1 + opt_len hdr) data b4) as [b5 [[]|k5]] eqn:W5; [|discriminate].
   unfold wret.
-  generalize (8 + body_len hdr data)%nat. intros size.
+  assert (Hsz : packet_len hdr data = (8 + body_len hdr data + 1)%nat) by (unfold packet_len; lia).
+  revert Hsz. generalize (8 + body_len hdr data)%nat. intros size Hsz.
   destruct (slice b5 0 size) as [pre|k6]; [|discriminate].
   destruct (size <? length b5)%nat eqn:Hlt; [|discriminate].
   intros E. injection E as E1 E2. subst n. apply Nat.ltb_lt in Hlt.
-  apply wr_length in W1, W2, W3, W5. lia.
+  apply wr_length in W1, W2, W3, W5. split; lia.
 Qed.
 
 Definition fit_writer (w : W (option nat)) : Prop :=
   forall buf out n, w buf = (out, Val (Some n)) -> (n <= length buf)%nat.
 Lemma fw_gen ovf addr dest mt hdr data : fit_writer (generate_packet_bytes ovf addr dest mt hdr data).
 Proof. intros buf out n. unfold generate_packet_bytes, wbind, wlift, wret.
+  destruct (body_header_new false mt) as [bh|k]; [|discriminate].
+  destruct (MAX_PACKET_LEN <? packet_len hdr data)%nat; [discriminate|].
+  destruct (packet_to_raw _ _ _ _ _ buf) as [b [m|k]] eqn:Hp; [|discriminate].
+  intros E. inversion E; subst. eapply packet_to_raw_fits. exact Hp. Qed.
+
+Lemma generate_packet_bytes_success ovf addr dest mt hdr data buf out n :
+  generate_packet_bytes ovf addr dest mt hdr data buf = (out, Val (Some n)) -> (n <= length buf)%nat /\ n = packet_len hdr data.
+Proof. unfold generate_packet_bytes, wbind, wlift, wret.
   destruct (body_header_new false mt) as [bh|k]; [|discriminate].
   destruct (MAX_PACKET_LEN <? packet_len hdr data)%nat; [discriminate|].
   destruct (packet_to_raw _ _ _ _ _ buf) as [b [m|k]] eqn:Hp; [|discriminate].
